@@ -79,6 +79,7 @@ def run(ctx):
     twopass(ctx, prog)
     early_exit_programs(ctx)
     temporaries_programs(ctx)
+    param_programs(ctx)
     # collect_const! runs the iterator DSL's expansion (`__call_iter_methods`) in both of its passes: which elements arrive, and in
     # which order, is C10's chain validation - decided here as well on its standard chain set (the glue around it is INIT/TWOPASS)
     from . import c10
@@ -109,6 +110,26 @@ TEMP_PROGS = [
     ("map!/borrowed temporaries", "pub fn mk(n: u8) -> u8 { n }\npub fn f() -> [u8; 2] { konst::array::map!([&mk(1), &mk(22)], |s| *s) }"),
     ("map!/borrowed temporary array", "pub fn mk(n: u8) -> [u8; 2] { [n, n] }\npub fn f() -> [u8; 2] { konst::array::map!(&mk(1), |s| s) }"),
 ]
+
+
+PARAM_PROGS = [(m + "/" + n, "pub fn f(s: [u8; 2]) -> [u8; 2] { konst::array::%s(s, |%s| %s) }" % (m, pat, expr))
+               for m in ("map!", "map_!") for n, pat, expr in (("ident", "x", "x"), ("wild", "_", "0"), ("mut", "mut x", "{ x += 1; x }"), ("ref", "ref x", "*x"))] + [
+    ("map_!/tuple", "pub fn f(s: [(u8, u8); 2]) -> [u8; 2] { konst::array::map_!(s, |(a, b)| a + b) }"),
+    ("map_!/struct", "pub struct P { pub a: u8, pub b: u8 }\npub fn f(s: [P; 2]) -> [u8; 2] { konst::array::map_!(s, |P { a, .. }| a) }"),
+    ("map!/tuple", "pub fn f(s: [(u8, u8); 2]) -> [u8; 2] { konst::array::map!(s, |(a, b)| a + b) }"),
+    ("from_fn!/wild", "pub fn f() -> [u8; 3] { konst::array::from_fn!(|_| 7u8) }"),
+    ("from_fn_!/wild", "pub fn f() -> [u8; 3] { konst::array::from_fn_!(|_| 7u8) }"),
+]
+
+
+def param_programs(ctx):
+    """ACC-PARAM: the array macros accept the irrefutable closure-parameter patterns `<[T; N]>::map` / `array::from_fn` accept"""
+    res = facts.compile_many([(n, "#![allow(unused)]\n" + src + "\n") for n, src in PARAM_PROGS], ctx.th)
+    for (n, src), r in zip(PARAM_PROGS, res):
+        if not r["ok"]:
+            ctx.violation("ACC-PARAM", n, "a valid program is rejected: `%s`: %s" % (src.splitlines()[-1], "; ".join(e["message"][:120] for e in r["errors"][:2])), detail={"program": src})
+        ctx.instance("ACC-PARAM", n, sample={"program": src.splitlines()[-1], "accepted": r["ok"]})
+    ctx.floor("ACC-PARAM", len(PARAM_PROGS))
 
 
 def temporaries_programs(ctx):
